@@ -289,6 +289,16 @@ func genC11(r *rand.Rand) *c11Case {
 				sc.Err.RawGrpcMessage = hostilePct(r)
 				sc.TrailersOnly = chance(r, 40)
 			}
+			if chance(r, 35) {
+				// grpc-status-details-bin whose embedded code contradicts grpc-status (0 = "OK" inside an error)
+				dc := pick(r, []int{0, 0, 17, -1, 5})
+				sc.Err.DetailsCode = &dc
+				if sc.Err.Code == 0 {
+					sc.Err.Code = 13
+				}
+				sc.TrailersOnly = chance(r, 30)
+				sc.ErrAfter = r.IntN(2)
+			}
 			cc.flavour = "weird-error"
 		}
 	}
@@ -332,7 +342,7 @@ func runC11(c *Ctx, i int, r *rand.Rand) {
 	}
 	detail := func() string { return fmt.Sprintf("mutations=%v backend=%s\n%s", cc.ops, cc.flavour, e.Describe()) }
 	if e.Panic != nil {
-		c.Violate(i, "panic/"+panicSite(e.Stack), fmt.Sprintf("ServeHTTP panicked: %v\n%s", e.Panic, detail()))
+		c.Violate(i, "panic/"+panicSite(e.Stack), fmt.Sprintf("ServeHTTP panicked: %v\n--- stack (vanguard and protobuf frames):\n%s\n%s", e.Panic, stackDigest(e.Stack), detail()))
 		return
 	}
 	pt := bo.Invocations > 0 && len(cc.ops) == 0 && passThrough(s, bo)
@@ -355,4 +365,21 @@ func runC11(c *Ctx, i int, r *rand.Rand) {
 	if bo.Invocations > 1 || bo.Invocations+e.Unknown.Invocations > 1 {
 		c.Violate(i, "dispatched-twice", detail())
 	}
+}
+
+// stackDigest keeps the function lines of the frames that matter for triage.
+func stackDigest(stack string) string {
+	var out []string
+	for _, line := range strings.Split(stack, "\n") {
+		if strings.HasPrefix(line, "\t") {
+			continue
+		}
+		if strings.Contains(line, "connectrpc.com/vanguard.") || strings.Contains(line, "google.golang.org/protobuf") || strings.Contains(line, "panic") {
+			out = append(out, line)
+		}
+		if len(out) >= 25 {
+			break
+		}
+	}
+	return strings.Join(out, "\n")
 }
